@@ -40,6 +40,11 @@ struct Case {
     parse: bool,    // build the DerivationPath by parsing "m/.." instead of DerivationPath::new
 }
 
+fn drun(drv: &mut Driver, name: &str, args: &[String]) -> Result<Vec<String>, String> {
+    let trace = std::env::var("C12_TRACE").is_ok();
+    drv.run_with(name, args, &mut |o, a| { if trace { eprintln!("Q {o} {}", a.join(" ")); } None })
+}
+
 fn prefix_of(tag: &str) -> Prefix {
     match tag {
         "x" => Prefix::XPub,
@@ -278,7 +283,7 @@ fn run_case(c: &Case, drv: &mut Driver, t: &mut Tally, log: &mut impl Write) {
     };
     writeln!(log, "xpub {} {} -> {}", c.kind, inp, impl_s).unwrap();
     // ---- model
-    let m = drv.run("c12.xpub", &[c.prefix.clone(), point_hex(&c.root), hx(&c.cc), path_str(&c.path)]);
+    let m = drun(drv, "c12.xpub", &[c.prefix.clone(), point_hex(&c.root), hx(&c.cc), path_str(&c.path)]);
     t.evals += 1;
     let model_s = match &m {
         Ok(v) if v[0] == "val" && v.len() == 9 => format!("val {} {} {} {} {} {} {} {}", v[1], v[2], v[3], v[4], v[5], v[6], strip_site(&v[7]), strip_site(&v[8])),
@@ -290,7 +295,7 @@ fn run_case(c: &Case, drv: &mut Driver, t: &mut Tally, log: &mut impl Write) {
         t.disagree.push(format!("derive_xpub/to_string [{}] {}: impl `{}` model `{}`", c.kind, inp, impl_s, model_s));
     }
     // ---- specification (extracted bip32_spec + spec_string)
-    let sp = drv.run("c12.spec", &[format!("{:x}", version_of(&c.prefix)), point_hex(&c.root), hx(&c.cc), path_str(&c.path)]);
+    let sp = drun(drv, "c12.spec", &[format!("{:x}", version_of(&c.prefix)), point_hex(&c.root), hx(&c.cc), path_str(&c.path)]);
     t.evals += 1;
     if non_hardened && c.path.len() <= 255 && !is_id {
         let spec_s = match &sp {
@@ -333,7 +338,7 @@ fn run_case(c: &Case, drv: &mut Driver, t: &mut Tally, log: &mut impl Write) {
         }
     }
     let offs_s = if offs.is_empty() { "-".to_string() } else { offs.iter().map(hex_of_scalar).collect::<Vec<_>>().join(",") };
-    let mo = drv.run("c12.offsets", &[point_hex(&c.root), hx(&c.cc), path_str(&c.path)]);
+    let mo = drun(drv, "c12.offsets", &[point_hex(&c.root), hx(&c.cc), path_str(&c.path)]);
     t.evals += 1;
     match &mo {
         Ok(v) if v.len() == 1 && v[0] == offs_s => {}
@@ -390,7 +395,7 @@ fn run_unit(seed: u64, thorough: bool, drv: &mut Driver, t: &mut Tally, log: &mu
             Ok(Err(e)) => format!("err {:x}", err_code(e)),
             Ok(Ok((o, k, c2))) => format!("val {} {} {}", hex_of_scalar(o), point_hex(k), hx(c2)),
         };
-        let m = drv.run("c12.child", &[point_hex(&parent), hx(&cc), format!("{:x}", i)]);
+        let m = drun(drv, "c12.child", &[point_hex(&parent), hx(&cc), format!("{:x}", i)]);
         t.evals += 1;
         let model_s = match &m { Ok(v) if v[0] == "panic" => "panic".to_string(), Ok(v) => v.join(" "), Err(e) => e.clone() };
         writeln!(log, "child P={} cc={} i={:x} -> {}", point_hex(&parent), hx(&cc), i, impl_s).unwrap();
@@ -400,7 +405,7 @@ fn run_unit(seed: u64, thorough: bool, drv: &mut Driver, t: &mut Tally, log: &mu
         *kinds.entry("unit-child".into()).or_default() += 1;
         // the specification's CKDpub + fingerprint (not for the identity parent: outside the BIP)
         if parent != ProjectivePoint::IDENTITY {
-            let s = drv.run("c12.ckdpub", &[point_hex(&parent), hx(&cc), format!("{:x}", i)]);
+            let s = drun(drv, "c12.ckdpub", &[point_hex(&parent), hx(&cc), format!("{:x}", i)]);
             t.evals += 1;
             let fp = quiet(AssertUnwindSafe(|| get_finger_print(&parent)));
             let spec_ok = match (&s, &res, &fp) {
@@ -416,7 +421,7 @@ fn run_unit(seed: u64, thorough: bool, drv: &mut Driver, t: &mut Tally, log: &mu
         // get_finger_print: value or panic
         let fp = quiet(AssertUnwindSafe(|| get_finger_print(&parent)));
         let impl_fp = match &fp { Ok(f) => format!("val:{}", hx(f)), Err(_) => "panic".into() };
-        let mfp = drv.run("c12.fp", &[point_hex(&parent)]);
+        let mfp = drun(drv, "c12.fp", &[point_hex(&parent)]);
         t.evals += 1;
         match &mfp {
             Ok(v) if v.len() == 1 && strip_site(&v[0]) == impl_fp => {}
@@ -428,7 +433,7 @@ fn run_unit(seed: u64, thorough: bool, drv: &mut Driver, t: &mut Tally, log: &mu
         let h = str_out(quiet(AssertUnwindSafe(|| x.to_string(false))));
         let b = str_out(quiet(AssertUnwindSafe(|| x.to_string(true))));
         let ptag = format!("c{:x}", u32::from(x.prefix));
-        let ms = drv.run("c12.tostring", &[ptag, format!("{:x}", x.depth), hx(&x.parent_fingerprint), format!("{:x}", x.child_number), hx(&cc), point_hex(&parent)]);
+        let ms = drun(drv, "c12.tostring", &[ptag, format!("{:x}", x.depth), hx(&x.parent_fingerprint), format!("{:x}", x.child_number), hx(&cc), point_hex(&parent)]);
         t.evals += 1;
         match &ms {
             Ok(v) if v.len() == 2 && strip_site(&v[0]) == h && strip_site(&v[1]) == b => {}
@@ -448,7 +453,7 @@ fn run_unit(seed: u64, thorough: bool, drv: &mut Driver, t: &mut Tally, log: &mu
         if real != ref_b58(&b) || ref_b58_decode(&real).as_deref() != Some(&b[..]) {
             t.oracle.push(format!("bs58 differs from the reference base conversion on {}", hx(&b)));
         }
-        let m = drv.run("c12.b58", &[hx(&b)]);
+        let m = drun(drv, "c12.b58", &[hx(&b)]);
         t.evals += 1;
         match &m {
             Ok(v) if v.len() == 2 && v[0] == hx(real.as_bytes()) && v[1] == format!("some:{}", hx(&b)) => {}
